@@ -636,6 +636,42 @@ func runC09(c *Ctx) Verdict {
 			pd.ret = simrt.Stamp()
 			hist = append(hist, pd)
 		}
+		// "at any time" includes right after a restore: the final states of every topic, restored into a
+		// fresh set of topics the way the service does at start-up, must give the same level and listings
+		for _, t := range []string{"t0", "t1", "t2"} {
+			es, err := d.Alert.EventStates(t, alert.OK)
+			if err != nil || len(es) == 0 || verdict.Class != "" {
+				continue
+			}
+			twin := alert.NewTopics(0)
+			in := make(map[string]*alert.EventState, len(es))
+			max := alert.OK
+			for id, s := range es {
+				s := s
+				in[id] = &s
+				if s.Level > max {
+					max = s.Level
+				}
+			}
+			twin.RestoreTopicNoCopy(t, in)
+			tt, ok := twin.Topic(t)
+			if !ok {
+				verdict = Fail("state/restored", "topic %s does not exist after its %d event states were restored", t, len(es))
+			} else if got := tt.MaxLevel(); got != max {
+				verdict = Fail("state/restored", "topic %s restored from the event states %v reports level %v, the highest level among them is %v", t, c09Levels(es), got, max)
+			} else {
+				for min := alert.OK; min <= alert.Critical && verdict.Class == ""; min++ {
+					got := tt.EventStates(min)
+					for id, s := range es {
+						if _, listed := got[id]; listed != (s.Level >= min) {
+							verdict = Fail("state/restored", "topic %s restored from the event states %v: listing with minimum level %v shows id %s = %v (level %v)", t, c09Levels(es), min, id, listed, s.Level)
+							break
+						}
+					}
+				}
+			}
+			twin.Close()
+		}
 	})
 	dynRemoved, dynReplaced := 0, 0
 	for _, s := range sc.Specs {
@@ -905,4 +941,18 @@ func init() {
 		Stub:        []string{"recording alert.Handler registered through the real service", "porcupine v1.3.0 as the linearizability checker (uninstrumented, runs after the world)", "libflux C stub (never called)"},
 		Assumptions: []string{"operations are stamped with the simulator's global event sequence at invoke and return", "an event whose Collect returned an error speaking of f handler failures (full queues) may have skipped at most f of the two always-registered handlers of its topic, and reached each at most once; f is read from the error text, one failure per line", "cross-publisher delivery order is not constrained; per-publisher order is", "porcupine results of 'unknown' (timeout) are counted, never reported"},
 	})
+}
+
+// c09Levels renders a set of event states as id:level pairs in id order.
+func c09Levels(es map[string]alert.EventState) string {
+	ids := make([]string, 0, len(es))
+	for id := range es {
+		ids = append(ids, id)
+	}
+	sort.Strings(ids)
+	var sb strings.Builder
+	for _, id := range ids {
+		fmt.Fprintf(&sb, "%s:%v ", id, es[id].Level)
+	}
+	return strings.TrimSpace(sb.String())
 }
